@@ -470,6 +470,14 @@ def run(ctx):
 
     # 1. the properties on the models  +  2. spec -> code: transition cover of the state graphs
     okp = oks = None
+    # (the small statistics graphs are ready first; the port graphs are still being exported meanwhile)
+    for cfg in sgraphs:
+      r, walks, info = jobs.get(cfg)
+      ctx.add_model("StatsAgg " + cfg, r)
+      ctx.notes["graph " + cfg] = info
+      ok = replay_variants(ctx, STATS, walks, dict(), cfg, all_variants=not quick, pick=lambda b: any(
+          st["exp"]["con"] and len(st["exp"]["con"][0]["e"]) >= 2 for st in b))
+      oks = oks or ok
     for cfg, np_ in pgraphs:
       r, walks, info = jobs.get(cfg)
       ctx.add_model("PortView " + cfg, r)
@@ -478,13 +486,6 @@ def run(ctx):
       ok = replay_variants(ctx, PORTS, walks, dict(NP=np_), cfg, all_variants=not quick and np_ < 3,
                            pick=lambda b: any("cur" in st["exp"] for st in b))
       okp = okp or ok
-    for cfg in sgraphs:
-      r, walks, info = jobs.get(cfg)
-      ctx.add_model("StatsAgg " + cfg, r)
-      ctx.notes["graph " + cfg] = info
-      ok = replay_variants(ctx, STATS, walks, dict(), cfg, all_variants=not quick, pick=lambda b: any(
-          st["exp"]["con"] and len(st["exp"]["con"][0]["e"]) >= 2 for st in b))
-      oks = oks or ok
     if not ctx.violations:
       if not negative_control_replay(ctx, PORTS, okp, corrupt_ports):
         raise core.Machinery("negative control (ports) could not be constructed")
